@@ -24,10 +24,11 @@ try:
 except Exception:
     C13_CLAUSES_HTLC = None
 
-import sys
+import sys, json, os
+_allowed = set(json.load(open(os.path.join(os.path.dirname(os.path.dirname(os.path.abspath(__file__))), "c13_parts.json"))))
 for modname, base, req in (("propdefs_htlc", "C03", []), ("propdefs_service", "C07", []), ("propdefs_random", "C18", [])):
     m = sys.modules.get(modname)
-    if m is None:
+    if m is None or modname.replace("propdefs_", "") not in _allowed:
         continue
     names = [getattr(m, n) for n in dir(m) if n.startswith("C13_CLAUSES")]
     if names:
